@@ -6,8 +6,6 @@ Open Scope N_scope.
 
 Lemma wf_0 K : wf K 0.
 Proof. unfold wf. pose proof (N.pow_nonzero 2 (N.of_nat (2 * K))). lia. Qed.
-Lemma in_firstn {A} (x : A) n l : In x (firstn n l) -> In x l.
-Proof. intro H. rewrite <- (firstn_skipn n l). apply in_or_app. now left. Qed.
 Lemma wf_dna_firstn n l : wf_dna l -> wf_dna (firstn n l).
 Proof. unfold wf_dna. rewrite !Forall_forall. intros H b Hb. apply H. eapply in_firstn; eauto. Qed.
 
